@@ -288,6 +288,17 @@ class _Specialiser:
             return [st]
         new = _ExprSpecialiser(self.env).visit(st)
         self._drop(_stores_in(st))
+        # alias = flag   /   alias = None / True / False: the new name is a
+        # known flag as well (until it is assigned again)
+        if isinstance(new, ast.Assign) and len(new.targets) == 1 and \
+                isinstance(new.targets[0], ast.Name):
+            v = new.value
+            if isinstance(v, ast.Name) and v.id in self.env and \
+                    v.id != new.targets[0].id:
+                self.env[new.targets[0].id] = self.env[v.id]
+            elif isinstance(v, ast.Constant) and (
+                    v.value is None or isinstance(v.value, bool)):
+                self.env[new.targets[0].id] = v.value
         return [new]
 
 
@@ -1148,7 +1159,22 @@ class Terms:
         out = []
         for kw in keywords:
             if kw.arg is None:
-                out.append(("**", self._t(kw.value, depth, cenv)))
+                # f(**{"a": x, "b": y}) / f(**dict(a=x, b=y)) / a local
+                # name bound once to such a display: the keywords themselves
+                vt = self._t(kw.value, depth, cenv)
+                named = None
+                if vt[0] == "dict" and len(vt) == 3 and all(
+                        k[0] == "const" and isinstance(k[1], str)
+                        for k in vt[1]):
+                    named = [(k[1], v) for k, v in zip(vt[1], vt[2])]
+                elif vt[0] == "call" and vt[1] == "builtins.dict" and \
+                        not vt[2] and not any(k == "**" for k, _v in vt[3]):
+                    named = list(vt[3])
+                if named is not None and len({k for k, _v in named}) == \
+                        len(named):
+                    out.extend(named)
+                else:
+                    out.append(("**", vt))
             else:
                 out.append((kw.arg, self._t(kw.value, depth, cenv)))
         return tuple(sorted(out, key=lambda x: x[0]))
@@ -1258,10 +1284,25 @@ class Terms:
         if isinstance(e, ast.IfExp):
             return ("ifexp", self._t(e.test, d1, cenv),
                     self._t(e.body, d1, cenv), self._t(e.orelse, d1, cenv))
-        if isinstance(e, ast.Tuple):
-            return ("tuple", tuple(self._t(x, d1, cenv) for x in e.elts))
-        if isinstance(e, ast.List):
-            return ("list", tuple(self._t(x, d1, cenv) for x in e.elts))
+        if isinstance(e, (ast.Tuple, ast.List)):
+            # (a, *(b, c)) is (a, b, c): a starred element whose value is
+            # itself a display (also through a name bound once) is spliced
+            elts = []
+            for x in e.elts:
+                xt = self._t(x, d1, cenv)
+                if xt[0] == "star" and isinstance(xt[1], tuple) and \
+                        xt[1] and xt[1][0] in ("tuple", "list") and not any(
+                            y[0] == "star" for y in xt[1][1]):
+                    elts.extend(xt[1][1])
+                else:
+                    elts.append(xt)
+            if len(elts) == 1 and elts[0][0] == "star" and isinstance(
+                    e.ctx, ast.Load):
+                # [*x] is list(x), (*x,) is tuple(x)
+                return ("call", "builtins.list" if isinstance(e, ast.List)
+                        else "builtins.tuple", (elts[0][1],), ())
+            return ("tuple" if isinstance(e, ast.Tuple) else "list",
+                    tuple(elts))
         if isinstance(e, ast.Set):
             return ("set", tuple(self._t(x, d1, cenv) for x in e.elts))
         if isinstance(e, ast.Dict):
